@@ -294,7 +294,11 @@ def run_shard(tier: str, seed: int, shard: int):
             idx += 1
             if idx % N_SHARDS != shard:
                 continue
-            recipe = D.apply(base, fns)
+            try:
+                recipe = D.apply(base, fns)
+            except (IndexError, KeyError):
+                acc.cls("pair_not_composable")  # the first deviation removed the field the second one edits (e.g. no rule blocks)
+                continue
             acc.states += 1
             acc.cls(f"group_{group.split('+')[0]}")
             pair = "+" in group
